@@ -142,7 +142,15 @@ func (s *Service) ScheduleJob(ctx context.Context,
 			// It is possible that the job is already active, so check that first before proceeding.
 			if job.active.Load() {
 				verifPoint(job, "GTActive")
-				s.log.Trace().Str("job", name).Time("scheduled", runtime).Msg("Already running; job not running")
+				// The job has been started by RunJob(), which sends the run signal whilst holding the
+				// state lock; pick the signal up here rather than dropping the job.
+				<-job.runCh
+				s.log.Trace().Str("job", name).Time("scheduled", runtime).Msg("Run triggered; job running")
+				monitorJobStartedOnSignal(class)
+				jobFunc(ctx)
+				s.log.Trace().Str("job", name).Time("scheduled", runtime).Msg("Job complete")
+				finaliseJob(job)
+				job.active.Store(false)
 				break
 			}
 			verifPoint(job, "GTInactive")
